@@ -26,4 +26,5 @@ def run(P, R, L):
     K.own10_cache_partitions(P, R, L)
     R.clause("OWN-11", "the table cache looks up, opens and caches a table under the one file number that was asked for")
     K.own11_table_cache_key(P, R, L)
+    K.bundle_filter(P, R, L)
     R.not_decided += ["prefix compression, separators, seek positions, iteration order (computed bytes)"]
